@@ -13,4 +13,6 @@ CONSTANTS
   LateTgt = {t3}
   SeedFix = TRUE
   Depth = 16
+  MaxIdle = 0
+  HoldClose = FALSE
 CHECK_DEADLOCK FALSE
